@@ -32,7 +32,7 @@ FAM = {
         "from": "", "skip": "(skip)", "ignore": "(ignore)", "forward": "(forward)", "ty_a": "(i8)", "ty_b": "(i16)", "ty_ab": "(i8, i16)",
         "ty_ab_comma": "(i8, i16,)", "legacy_types": "(types(i8))"}),
     "from_struct": dict(derives=["From"], item="{A} struct S(i64);", name="from", atoms={
-        "forward": "(forward)", "ty_a": "(i8)", "ty_b": "(i16)", "ty_ab": "(i8, i16)", "ty_ab_comma": "(i8, i16,)", "legacy_types": "(types(i8))"}),
+        "variant_only_from": "", "forward": "(forward)", "ty_a": "(i8)", "ty_b": "(i16)", "ty_ab": "(i8, i16)", "ty_ab_comma": "(i8, i16,)", "legacy_types": "(types(i8))"}),
     "asref_struct": dict(derives=["AsRef", "AsMut"], item="{A} struct S(Vec<u8>);", name="{n}", atoms={
         "forward": "(forward)", "ty_a": "([u8])", "ty_b": "(Vec<u8>)", "ty_ab": "([u8], Vec<u8>)", "ty_ab_comma": "([u8], Vec<u8>,)"}),
     "asref_field": dict(derives=["AsRef", "AsMut"], item="struct S {{ {A} a: Vec<u8>, b: u8 }}", name="{n}", atoms={
@@ -40,15 +40,17 @@ FAM = {
     "into_struct": dict(derives=["Into"], item="{A} struct S(i32);", name="into", atoms={
         "bare": "", "owned": "(owned)", "ref": "(ref)", "ref_mut": "(ref_mut)", "owned_ref": "(owned, ref)", "ref_refmut": "(ref, ref_mut)",
         "all3": "(owned, ref, ref_mut)", "all3_comma": "(owned, ref, ref_mut,)", "ty_a": "(i64)", "ty_b": "(i128)", "ty_ab": "(i64, i128)",
-        "unknown_form": "(frob(i32))"}),
+        "unknown_form": "(frob(i32))", "legacy_types": "(types(i64))", "mixed_forms": "(i64, ref(i32))"}),
     "into_field": dict(derives=["Into"], item="struct S {{ a: i32, {A} b: u8 }}", name="into", atoms={"skip": "(skip)", "ignore": "(ignore)"}),
     "legacy_field": dict(derives=["Deref", "DerefMut"], item="struct S {{ {A} a: Vec<u8>, b: u8 }}", name="{n}", atoms={
-        "sel": "", "ignore": "(ignore)", "forward": "(forward)", "unknown": "(frobnicate)", "eq_value": ' = "x"'}),
+        "sel": "", "ignore": "(ignore)", "forward": "(forward)", "unknown": "(frobnicate)", "eq_value": ' = "x"',
+        "name_value": "(forward = true)", "lit_param": '("forward")'}),
     "legacy_forms": dict(derives=["IntoIterator", "TryInto", "Unwrap", "TryUnwrap"], item=None, name="{n}", atoms={
-        "owned": "(owned)", "ref": "(ref)", "ref_mut": "(ref_mut)", "owned_ref": "(owned, ref)", "all3": "(owned, ref, ref_mut)", "unknown": "(frobnicate)"}),
+        "owned": "(owned)", "ref": "(ref)", "ref_mut": "(ref_mut)", "owned_ref": "(owned, ref)", "all3": "(owned, ref, ref_mut)", "unknown": "(frobnicate)",
+        "list_param": "(owned(i32))", "name_value": "(owned = true)"}),
     "error_field": dict(derives=["Error"], item="struct S {{ {A} a: Inner, b: u8 }}", name="error", atoms={
         "source": "(source)", "not_source": "(not(source))", "backtrace": "(backtrace)", "ignore": "(ignore)", "source_backtrace": "(backtrace, source)",
-        "unknown": "(frobnicate)"}),
+        "unknown": "(frobnicate)", "nested_not": "(not(not(source)))", "not_unknown": "(not(frobnicate))", "list_param": "(source(x))"}),
 }
 ATTRNAME = {"Display": "display", "Debug": "debug", "AsRef": "as_ref", "AsMut": "as_mut", "Deref": "deref", "DerefMut": "deref_mut",
             "IntoIterator": "into_iterator", "TryInto": "try_into", "Unwrap": "unwrap", "TryUnwrap": "try_unwrap"}
